@@ -441,6 +441,10 @@ def stepGS (st : DriverState) (j : Json) : DriverState × Json :=
         | .ok gs' => ({ st with gs := some gs' }, okJ Json.null)
         | .error e => (st, errJ e))
     | none => (st, badJ "gs add_system")
+  | some "attr" =>
+    (match fStr j "s", fStr j "item" with
+      | some s_, some it => (st, exceptJ Json.str (GS.systemAttr R s_ it))
+      | _, _ => (st, badJ "gs attr: s/item"))
   | some "systems" => (st, okJ (strsJ (gs.systems.map (·.name))))
   | some "groups" => (st, okJ (strsJ (gs.groups.map (·.name))))
   | _ => (st, badJ "gs: f")
